@@ -70,9 +70,18 @@ func (c *Ctx) nilGuardCandidates() []*ssa.Function {
 
 func rulePXNilGuard(c *Ctx) []Obligation {
 	o := c.newObs("P-NILGUARD")
-	for _, f := range c.nilGuardCandidates() {
+	cands := c.nilGuardCandidates()
+	isCand := map[*ssa.Function]bool{}
+	for _, f := range cands {
+		isCand[f] = true
+	}
+	std := c.stdOpaque()
+	for _, f := range cands {
 		fn := fname(f)
-		paths, trunc := c.Paths(f, PXConfig{Opaque: c.stdOpaque(), MaxVisits: 3, MaxDepth: 3, MaxPaths: 60000})
+		// every candidate is judged on its own paths, so inside another candidate it stays a call
+		self := f
+		opq := func(g *ssa.Function) bool { return std(g) || (isCand[g] && g != self) }
+		paths, trunc := c.Paths(f, PXConfig{Opaque: opq, MaxVisits: 3, MaxDepth: 3, MaxPaths: 60000})
 		if trunc || len(paths) == 0 {
 			o.undecided(fn, "path enumeration", f.Pos(), "%d paths, truncated %v", len(paths), trunc)
 			continue
